@@ -74,3 +74,193 @@ Theorem C09_live_iteration_skips_refuted : exists (l : list nat) (closes : nat -
   In h l /\ ~ In h (walk_live nat closes (length l) 0 l).
 Proof. exact live_skips. Qed.
 Print Assumptions C09_live_iteration_skips_refuted.
+
+(** The transfer-message handlers of ContactHandler (recv_xfer_ack,
+    recv_xfer_refuse, recv_sess_term, with the Messenger base guards they call
+    first and _tx_teardown), regenerated from tcpcl/session.py on every run
+    (Gen/TcpclHandlers.v over the abstract handler state of
+    Model/TcpclHandlerSt.v): for EVERY endpoint state [s], the model's handling
+    of the message agrees with the generated function on the abstraction
+    [habs s] -- reject-or-handled outcome, every field of the abstract state
+    (session flags, transmit map with the acknowledged lengths, the queue of
+    unstarted transfers, the set awaiting the final acknowledgement, the
+    transfer in progress, its offset, the pending queue run), the D-Bus signals
+    emitted in order ([h_events]; the model's trace may only add the state
+    change of its own SESS_TERM reply before and the socket-closed event after,
+    the latter only if _check_sess_term() was called). *)
+From DTN Require Import Model.TcpclHandlerSt Gen.TcpclHandlers Proofs.TcpclHandlerTie.
+Import ListNotations.
+
+Theorem Tie_recv_xfer_ack : forall (s : ep) (fl xid len : N),
+  let g := gen_recv_xfer_ack xid fl len (habs s) in
+  let r := handle_msg (MXferAck fl xid len) s in
+  snd g = outcome_code (snd r)
+  /\ h_in_sess (fst g) = in_sess (fst r) /\ h_in_conn (fst g) = in_conn (fst r)
+  /\ h_tx_map (fst g) = tx_map (fst r)
+  /\ h_pend_start (fst g) = map (fun it => (fst it, None)) (pend_start (fst r))
+  /\ h_pend_ack (fst g) = pend_ack (fst r)
+  /\ h_tx_tmp (fst g) = match tx_tmp (fst r) with Some (i, _) => Some i | None => None end
+  /\ h_tx_len (fst g) = tx_len (fst r) /\ h_pq (fst g) = pq_set (fst r)
+  /\ (exists tail, trace (fst r) = trace s ++ h_events (fst g) ++ tail
+                   /\ (tail = [] \/ (tail = [EClosed] /\ h_check (fst g) = true)))
+  /\ (h_check (fst g) = false -> closed (fst r) = closed s).
+Proof. exact tie_xfer_ack. Qed.
+Print Assumptions Tie_recv_xfer_ack.
+
+Theorem Tie_recv_xfer_refuse : forall (s : ep) (reason xid : N),
+  let g := gen_recv_xfer_refuse xid reason (habs s) in
+  let r := handle_msg (MXferRefuse reason xid) s in
+  snd g = outcome_code (snd r)
+  /\ h_in_sess (fst g) = in_sess (fst r) /\ h_in_conn (fst g) = in_conn (fst r)
+  /\ h_tx_map (fst g) = tx_map (fst r)
+  /\ h_pend_start (fst g) = map (fun it => (fst it, None)) (pend_start (fst r))
+  /\ h_pend_ack (fst g) = pend_ack (fst r)
+  /\ h_tx_tmp (fst g) = match tx_tmp (fst r) with Some (i, _) => Some i | None => None end
+  /\ h_tx_len (fst g) = tx_len (fst r) /\ h_pq (fst g) = pq_set (fst r)
+  /\ (exists tail, trace (fst r) = trace s ++ h_events (fst g) ++ tail
+                   /\ (tail = [] \/ (tail = [EClosed] /\ h_check (fst g) = true)))
+  /\ (h_check (fst g) = false -> closed (fst r) = closed s).
+Proof. exact tie_xfer_refuse. Qed.
+Print Assumptions Tie_recv_xfer_refuse.
+
+Theorem Tie_recv_sess_term : forall (s : ep) (fl reason : N),
+  let g := gen_recv_sess_term reason (habs s) in
+  let r := handle_msg (MSessTerm fl reason) s in
+  snd g = outcome_code (snd r)
+  /\ h_in_sess (fst g) = in_sess (fst r) /\ h_in_conn (fst g) = in_conn (fst r)
+  /\ h_tx_map (fst g) = tx_map (fst r)
+  /\ h_pend_start (fst g) = map (fun it => (fst it, None)) (pend_start (fst r))
+  /\ h_pend_ack (fst g) = pend_ack (fst r)
+  /\ h_tx_tmp (fst g) = match tx_tmp (fst r) with Some (i, _) => Some i | None => None end
+  /\ h_tx_len (fst g) = tx_len (fst r) /\ h_pq (fst g) = pq_set (fst r)
+  /\ (exists t1 tail, trace (fst r) = trace s ++ t1 ++ h_events (fst g) ++ tail
+                      /\ (t1 = [] \/ t1 = [ESig SigState [PStr ST_ENDING]])
+                      /\ (tail = [] \/ (tail = [EClosed] /\ h_check (fst g) = true)))
+  /\ (h_check (fst g) = false -> closed (fst r) = closed s).
+Proof. exact tie_sess_term. Qed.
+Print Assumptions Tie_recv_sess_term.
+
+(* Non-vacuity: on a reachable state with a transfer awaiting its final
+   acknowledgement the generated handler accepts the END acknowledgement, emits
+   the finished signal and asks for the termination check. *)
+Example Tie_handlers_nonvacuous :
+  let s := run (mkCfg false [100] 30 60 1000 500 None)
+               [OStart; ORx (encode_frame (FContact (mkContact MAGIC 4 0)));
+                ORx (encode_frame (FMsg (MSessInit 30 100 1000 [101] []))); OSend [1;2;3]; OPQ] in
+  let g := gen_recv_xfer_ack 1 3 3 (habs s) in
+  pend_ack s = [1] /\ snd g = None /\ h_pend_ack (fst g) = [] /\ h_check (fst g) = true
+  /\ h_events (fst g) = [ESig SigSendFinished [PStrNum 1; PInt 3; PStr RES_SUCCESS]].
+Proof. vm_compute. repeat split; reflexivity. Qed.
+
+(** XFER_SEGMENT: ContactHandler.recv_xfer_data (with the base guard, _rx_setup
+    and _rx_teardown); the octet string of the segment is represented by its
+    length, the transfer being received by (id, octets received so far), the
+    received bundles by (id, length); [h_sent] are the XFER_ACKs handed to
+    send_message. *)
+From DTN Require Import Proofs.TcpclHandlerTie3.
+Theorem Tie_recv_xfer_data : forall (s : ep) (fl xid : N) (ext data : bytes),
+  let g := gen_recv_xfer_data xid fl (N.of_nat (length data)) 0 (habs s) in
+  let r := handle_msg (MXferSeg fl xid ext data) s in
+  snd g = outcome_code (snd r)
+  /\ h_in_sess (fst g) = in_sess (fst r) /\ h_in_conn (fst g) = in_conn (fst r)
+  /\ h_rx_tmp (fst g) = match rx_tmp (fst r) with Some (i, a) => Some (i, N.of_nat (length a)) | None => None end
+  /\ h_rx_map (fst g) = map (fun it => (fst it, N.of_nat (length (snd it)))) (rx_map (fst r))
+  /\ sent (fst r) = sent s ++ map FMsg (h_sent (fst g))
+  /\ h_tx_map (fst g) = tx_map (fst r) /\ h_pend_ack (fst g) = pend_ack (fst r)
+  /\ h_tx_len (fst g) = tx_len (fst r) /\ h_pq (fst g) = pq_set (fst r)
+  /\ (exists tail, trace (fst r) = trace s ++ h_events (fst g) ++ tail
+                   /\ (tail = [] \/ (tail = [EClosed] /\ h_check (fst g) = true)))
+  /\ (h_check (fst g) = false -> closed (fst r) = closed s).
+Proof. exact tie_xfer_data. Qed.
+Print Assumptions Tie_recv_xfer_data.
+
+(** Control structure (Gen/TcpclControl.v): each model function IS the decision
+    regenerated from the code followed by the corresponding model action. *)
+From RecordUpdate Require Import RecordSet.
+Import RecordSetNotations.
+From DTN Require Import Gen.TcpclControl Proofs.TcpclHandlerTie2.
+
+(** ContactHandler._process_queue up to the point where a segment is produced:
+    wait for the session (keep the idle source) / nothing to do / start the
+    transfer at the head of the queue / go on with the transfer in progress --
+    a transfer in progress goes on whatever _in_sess and _in_term say. *)
+Theorem Tie_process_queue_guards : forall s : ep,
+  process_queue s =
+  match gen_pq_guard (is_none (tx_tmp s)) (in_sess s) (in_term s) (is_nil (pend_start s)) with
+  | PqReturn keep => (s <| pq_set := false |>, keep)
+  | PqContinue => (send_next (s <| pq_set := false |>), false)
+  | PqStart =>
+      match pend_start s with
+      | (id, data) :: rest =>
+          (send_next (emit (ESig SigSendStarted [PStrNum id; PInt (N.of_nat (length data))])
+                           (s <| pq_set := false |> <| pend_start := rest |> <| tx_tmp := Some (id, data) |>
+                              <| tx_len := 0 |>)), false)
+      | [] => (s <| pq_set := false |>, false)
+      end
+  end.
+Proof. exact tie_process_queue. Qed.
+Print Assumptions Tie_process_queue_guards.
+
+(** Messenger._idle_timeout when the timer fires on an open endpoint. *)
+Theorem Tie_idle_timeout : forall (s : ep) (due : N),
+  closed s = false -> idle_due s = Some due -> (due <=? now s) = true ->
+  step s OFireIdle =
+  match gen_idle_timeout (in_sess s) (in_term s) (is_sess_idle s) with
+  | IdleClose => do_close (s <| idle_due := None |>)
+  | IdleTerm reason reply => escape (send_sess_term reason reply (s <| idle_due := None |>))
+  | IdleNothing => s <| idle_due := None |>
+  end.
+Proof. exact tie_idle_timeout. Qed.
+Print Assumptions Tie_idle_timeout.
+
+(** ContactHandler.terminate. *)
+Theorem Tie_terminate : forall (s : ep) (reason : N), closed s = false ->
+  step s (OTerm reason) =
+  match gen_terminate reason (in_sess s) (in_term s) (is_sess_idle s) with
+  | TermClose => do_close s
+  | TermSend r reply => escape (send_sess_term r reply s)
+  | TermNothing => s
+  end.
+Proof. exact tie_terminate. Qed.
+Print Assumptions Tie_terminate.
+
+(** The loop of Messenger.recv_raw goes on while octets are buffered AND the
+    socket is open: nothing buffered behind a message that closed the
+    connection is parsed. *)
+Theorem Tie_recv_raw_loop : forall (fuel : nat) (s : ep),
+  recv_loop (S fuel) s =
+  if gen_rx_loop_guard (negb (is_nil (rx_buf s))) (negb (closed s)) then
+    match parse_frame (in_conn s) (rx_buf s) with
+    | None => ok s
+    | Some (fr, rest) =>
+        match recv_frame fr (s <| rx_buf := rest |> <| handled := handled s ++ [fr] |>) with
+        | (s', None) => recv_loop fuel s'
+        | (s', Some k) => raise k s'
+        end
+    end
+  else ok s.
+Proof. exact tie_rx_loop. Qed.
+Print Assumptions Tie_recv_raw_loop.
+
+(** Messenger.send_sess_term: the two RuntimeError guards, _in_term, the state
+    change and the REPLY flag. *)
+Theorem Tie_send_sess_term : forall (reason : N) (reply : bool) (s : ep),
+  send_sess_term reason reply s =
+  if gen_sst_raises (in_sess s) (in_term s) then raise EX_RUNTIME s
+  else ok (send_msg (MSessTerm (gen_sst_flags reply) reason) (set_state ST_ENDING (s <| in_term := true |>))).
+Proof. exact tie_send_sess_term. Qed.
+Print Assumptions Tie_send_sess_term.
+
+(** The SESS_TERM branch of Messenger.recv_message: reject outside a session,
+    reply unless already terminating, then the handler. *)
+Theorem Tie_sess_term_dispatch : forall (fl reason : N) (s : ep),
+  handle_msg (MSessTerm fl reason) s =
+  if gen_term_reject (in_sess s) (in_term s) then (s, Reject REJ_UNEXPECTED)
+  else
+    let '(s1, exc) := if gen_term_reply (in_sess s) (in_term s) then send_sess_term reason true s else (s, None) in
+    match exc with
+    | Some k => (s1, Escaped k)
+    | None => (check_sess_term (flush_pend_start s1), Done)
+    end.
+Proof. exact tie_term_dispatch. Qed.
+Print Assumptions Tie_sess_term_dispatch.
